@@ -69,3 +69,86 @@ func c19Reuse(c *ev.Ctx, r *rand.Rand, caseN int) {
 		c.Nontrivial(ev.Hash("reuse", fmt.Sprint(log)))
 	}
 }
+
+// c19Direct: (a) a MetricStrategy asked directly, with options that overlap the existing parents it is shown: its pick is an
+// option of maximal metric all the same; (b) the caller's heads array serves as both arguments (existing = heads[:k],
+// options = heads): the result still starts with heads[:k] in order and repeats nothing.
+func c19Direct(c *ev.Ctx, r *rand.Rand, caseN int) {
+	pool := make(hash.Events, 8)
+	metric := map[hash.Event]ancestor.Metric{}
+	for i := range pool {
+		pool[i] = hash.Event{byte(i + 1), byte(caseN), byte(caseN >> 8), 0x1d}
+		metric[pool[i]] = ancestor.Metric(1 + r.Intn(5))
+	}
+	st := ancestor.NewMetricStrategy(func(h hash.Event) ancestor.Metric { return metric[h] })
+	perm := r.Perm(len(pool))
+	var existing, options hash.Events
+	for _, k := range perm[:1+r.Intn(3)] {
+		existing = append(existing, pool[k])
+	}
+	for _, k := range r.Perm(len(pool))[:2+r.Intn(5)] {
+		options = append(options, pool[k])
+	}
+	options = append(options, existing[r.Intn(len(existing))]) // overlap
+	var pick int
+	if p, _ := ev.Try(func() { pick = st.Choose(append(hash.Events{}, existing...), append(hash.Events{}, options...)) }); p != nil {
+		c.Violation("choose-parents-panics", map[string]interface{}{"case": caseN, "panic": fmt.Sprint(p), "call": "MetricStrategy.Choose"})
+		return
+	}
+	var best ancestor.Metric
+	for _, o := range options {
+		if metric[o] > best {
+			best = metric[o]
+		}
+	}
+	if pick < 0 || pick >= len(options) || metric[options[pick]] != best {
+		c.Violation("metric-strategy-not-maximal", map[string]interface{}{"case": caseN, "existing": fmt.Sprint(existing), "options": fmt.Sprint(options), "metric": fmt.Sprint(metric), "picked_index": pick, "maximal_metric": best,
+			"why": "Choose called directly with options that overlap the existing parents"})
+		return
+	}
+	// (b) shared memory
+	heads := append(hash.Events{}, pool[:3+r.Intn(5)]...)
+	k := 1 + r.Intn(2)
+	want := append(hash.Events{}, heads[:k]...)
+	all := append(hash.Events{}, heads...)
+	var res hash.Events
+	if p, _ := ev.Try(func() {
+		res = ancestor.ChooseParents(heads[:k], heads, []ancestor.SearchStrategy{st, ancestor.NewRandomStrategy(rand.New(rand.NewSource(int64(caseN))))})
+	}); p != nil {
+		c.Violation("choose-parents-panics", map[string]interface{}{"case": caseN, "panic": fmt.Sprint(p), "call": "ChooseParents(heads[:k], heads, ...)"})
+		return
+	}
+	seen := map[hash.Event]bool{}
+	bad := ""
+	for i, p := range res {
+		if i < k && p != want[i] {
+			bad = fmt.Sprintf("position %d is not the existing parent", i)
+		}
+		if seen[p] {
+			bad = "a parent is repeated"
+		}
+		seen[p] = true
+		ok := false
+		for _, h := range all {
+			if h == p {
+				ok = true
+			}
+		}
+		if !ok {
+			bad = "a parent that was never offered"
+		}
+	}
+	if len(res) < k {
+		bad = "result shorter than the existing parents"
+	}
+	if bad != "" {
+		cls := "existing-parents-not-first"
+		if bad == "a parent is repeated" {
+			cls = "parent-repeated"
+		}
+		c.Violation(cls, map[string]interface{}{"case": caseN, "heads": fmt.Sprint(all), "existing": fmt.Sprintf("heads[:%d]", k), "result": fmt.Sprint(res), "why": bad + " (existing parents and options share one array)"})
+		return
+	}
+	c.Eval(1)
+	c.Count("direct_choose_calls_and_shared_array_selections", 2)
+}
